@@ -452,6 +452,9 @@ func runProperty(eng *Engine, prop, tier string, opts solveOpts, evidence, repla
 			violationLines = append(violationLines, fmt.Sprintf("VIOLATION property=%s replay=%s", prop, path))
 			exit = 1
 			standInNotes = append(standInNotes, "bounded: "+si.note+" - VIOLATED on this tree")
+		} else if rep["oracle_unbuildable"] == true {
+			standInNotes = append(standInNotes, "bounded: "+si.note+" - COULD NOT BE RUN on this tree (the harness does not build against it); the assumed contract is unchecked in this run")
+			fmt.Printf("NOTE bounded-stand-in/%s could not be run on this tree (harness does not build)\n", si.what)
 		} else {
 			standInNotes = append(standInNotes, "bounded: "+si.note+" - passed on this tree")
 		}
@@ -567,6 +570,7 @@ func runProperty(eng *Engine, prop, tier string, opts solveOpts, evidence, repla
 			}
 		}
 	}
+	assumedList = append(assumedList, eng.renamed...)
 	assumedList = append(assumedList, propertyAssumptions[prop]...)
 	assumedList = append(assumedList,
 		"functional clauses are partial-correctness statements; the safety obligations (no panic, no out-of-range access, channel misuse) of the library functions in this cone are part of this check (see obligations_by_kind), those of functions outside it are decided under C07 (library) or the pipeline properties (applications); loop termination measures are decided under C07 and, for the week computation, under C06/C17",
